@@ -72,19 +72,27 @@ def delete_removes_found(prog, f, tree, removals):
     found_tests = 0
     for blk, d in b.switch_discr.items():
         d = strip(d)
-        if not (d.kind == 'bin' and d.args[0] in ('Eq', 'Ne')):
-            continue
-        x, y = strip(d.args[1]), strip(d.args[2])
-        idx = x if prog.is_empty_ref(y) else (y if prog.is_empty_ref(x) else None)
-        if idx is None or idx.kind != 'call' or prog.resolve(idx) is None:
-            continue
-        found_tests += 1
         t = b.mir['blocks'][blk]['term']
-        for succ in cfg.succ[blk]:
-            tr = edge_truth(t, succ)
-            if tr is None:
+        value_switch = d.kind == 'call' and prog.resolve(d) is not None and prog.EMPTY_REF in [v_ for v_, _ in t.get('targets', [])]
+        if value_switch:
+            idx = d         # `match self.find_index(key) { EMPTY_REF => .., index => .. }`
+        else:
+            if not (d.kind == 'bin' and d.args[0] in ('Eq', 'Ne')):
                 continue
-            nonempty = tr if d.args[0] == 'Ne' else not tr
+            x, y = strip(d.args[1]), strip(d.args[2])
+            idx = x if prog.is_empty_ref(y) else (y if prog.is_empty_ref(x) else None)
+            if idx is None or idx.kind != 'call' or prog.resolve(idx) is None:
+                continue
+        found_tests += 1
+        for succ in cfg.succ[blk]:
+            if value_switch:
+                empty_t = [tb for v_, tb in t['targets'] if v_ == prog.EMPTY_REF]
+                nonempty = succ not in empty_t
+            else:
+                tr = edge_truth(t, succ)
+                if tr is None:
+                    continue
+                nonempty = tr if d.args[0] == 'Ne' else not tr
             if not nonempty:
                 continue
             for ret in cfg.returns:
